@@ -71,6 +71,10 @@ class Plane(BaseGeometry):
         geometry_dict.update({
             'radius': np.inf,
         })
+        # a conic constant given to the flat surface (set_conic, or kept by
+        # set_radius(inf)) is part of the prescription
+        if getattr(self, 'k', 0) != 0:
+            geometry_dict['conic'] = self.k
         return geometry_dict
 
     @classmethod
@@ -84,4 +88,7 @@ class Plane(BaseGeometry):
             Plane: The plane geometry.
         """
         cs = CoordinateSystem.from_dict(data['cs'])
-        return cls(cs)
+        plane = cls(cs)
+        if data.get('conic', 0) != 0:
+            plane.k = data['conic']
+        return plane
